@@ -80,7 +80,7 @@ macro_rules! byte_kind {
                 rs.push(("json_borrowed", match serde_json::from_str::<&$B>(&js) { Ok(v) => ok(v.as_bytes(), b), Err(_) => R::Err }));
             }
         }
-        summarize(rs)
+        rs
     }};
 }
 
@@ -108,7 +108,7 @@ macro_rules! char_kind {
                 rs.push(("json_borrowed", match serde_json::from_str::<&$B>(&js) { Ok(v) => ok(v.as_bytes(), b), Err(_) => R::Err }));
             }
         }
-        summarize(rs)
+        rs
     }};
 }
 
@@ -116,7 +116,79 @@ fn no_from_vec(_: &[u8]) -> Option<R> {
     None
 }
 
+/// Conversions from the sibling types are routes in as well (C13/C14): whenever the input can be
+/// held as a value of a sibling type, converting that value must accept exactly what the
+/// validating constructor of the target accepts, keep the text, and hand the original back on
+/// failure.
+fn sibling_routes(kind: &str, b: &[u8], rs: &mut Vec<(&'static str, R)>) {
+    use iref::{Iri, IriBuf, IriRef, IriRefBuf, Uri, UriBuf, UriRef, UriRefBuf};
+    let s = std::str::from_utf8(b).ok();
+    match kind {
+        "uri" => {
+            if let Ok(r) = UriRef::new(b) {
+                rs.push(("tf_uriref", match <&Uri>::try_from(r) { Ok(v) => ok(v.as_bytes(), b), Err(e) => er(e.0.as_bytes(), b) }));
+                rs.push(("as_uri", match r.as_uri() { Some(v) => ok(v.as_bytes(), b), None => R::Err }));
+                let rb = UriRefBuf::new(b.to_vec()).unwrap();
+                rs.push(("tf_urirefbuf", match UriBuf::try_from(rb.clone()) { Ok(v) => ok(v.as_bytes(), b), Err(e) => er(e.0.as_bytes(), b) }));
+                rs.push(("try_into_uri", match rb.try_into_uri() { Ok(v) => ok(v.as_bytes(), b), Err(e) => er(e.0.as_bytes(), b) }));
+            }
+            if let Some(Ok(r)) = s.map(IriRef::new) {
+                rs.push(("tf_iriref", match <&Uri>::try_from(r) { Ok(v) => ok(v.as_bytes(), b), Err(e) => er(e.0.as_bytes(), b) }));
+                let rb = IriRefBuf::new(s.unwrap().to_string()).unwrap();
+                rs.push(("tf_irirefbuf", match UriBuf::try_from(rb) { Ok(v) => ok(v.as_bytes(), b), Err(e) => er(e.0.as_bytes(), b) }));
+            }
+            if let Some(Ok(r)) = s.map(Iri::new) {
+                rs.push(("tf_iri", match <&Uri>::try_from(r) { Ok(v) => ok(v.as_bytes(), b), Err(e) => er(e.0.as_bytes(), b) }));
+                let rb = IriBuf::new(s.unwrap().to_string()).unwrap();
+                rs.push(("tf_iribuf", match UriBuf::try_from(rb) { Ok(v) => ok(v.as_bytes(), b), Err(e) => er(e.0.as_bytes(), b) }));
+            }
+        }
+        "uriRef" => {
+            if let Some(Ok(r)) = s.map(IriRef::new) {
+                rs.push(("tf_iriref", match <&UriRef>::try_from(r) { Ok(v) => ok(v.as_bytes(), b), Err(e) => er(e.0.as_bytes(), b) }));
+                let rb = IriRefBuf::new(s.unwrap().to_string()).unwrap();
+                rs.push(("tf_irirefbuf", match UriRefBuf::try_from(rb) { Ok(v) => ok(v.as_bytes(), b), Err(e) => er(e.0.as_bytes(), b) }));
+            }
+            if let Ok(r) = Uri::new(b) {
+                rs.push(("from_uri", ok(r.as_uri_ref().as_bytes(), b)));
+            }
+        }
+        "iri" => {
+            if let Some(Ok(r)) = s.map(IriRef::new) {
+                rs.push(("tf_iriref", match <&Iri>::try_from(r) { Ok(v) => ok(v.as_bytes(), b), Err(e) => er(e.0.as_bytes(), b) }));
+                rs.push(("as_iri", match r.as_iri() { Some(v) => ok(v.as_bytes(), b), None => R::Err }));
+                let rb = IriRefBuf::new(s.unwrap().to_string()).unwrap();
+                rs.push(("tf_irirefbuf", match IriBuf::try_from(rb.clone()) { Ok(v) => ok(v.as_bytes(), b), Err(e) => er(e.0.as_bytes(), b) }));
+                rs.push(("try_into_iri", match rb.try_into_iri() { Ok(v) => ok(v.as_bytes(), b), Err(e) => er(e.0.as_bytes(), b) }));
+            }
+            if let Ok(r) = UriRef::new(b) {
+                rs.push(("tf_uriref", match <&Iri>::try_from(r) { Ok(v) => ok(v.as_bytes(), b), Err(e) => er(e.0.as_bytes(), b) }));
+                let rb = UriRefBuf::new(b.to_vec()).unwrap();
+                rs.push(("tf_urirefbuf", match IriBuf::try_from(rb) { Ok(v) => ok(v.as_bytes(), b), Err(e) => er(e.0.as_bytes(), b) }));
+            }
+            if let Ok(r) = Uri::new(b) {
+                rs.push(("from_uri", ok(r.as_iri().as_bytes(), b)));
+            }
+        }
+        "iriRef" => {
+            if let Ok(r) = UriRef::new(b) {
+                rs.push(("from_uriref", ok(r.as_iri_ref().as_bytes(), b)));
+            }
+            if let Some(Ok(r)) = s.map(Iri::new) {
+                rs.push(("from_iri", ok(r.as_iri_ref().as_bytes(), b)));
+            }
+        }
+        _ => {}
+    }
+}
+
 pub fn ctor(kind: &str, b: &[u8]) -> Option<String> {
+    let mut rs = ctor_routes(kind, b)?;
+    sibling_routes(kind, b, &mut rs);
+    Some(summarize(rs))
+}
+
+fn ctor_routes(kind: &str, b: &[u8]) -> Option<Vec<(&'static str, R)>> {
     use iref::{iri, uri};
     Some(match kind {
         "uri" => byte_kind!(iref::Uri, iref::UriBuf, b),
